@@ -117,23 +117,32 @@ impl Dag {
     // By default, all nodes are false, and calling this is required to make a
     // subtree visible during graph traversals.
     pub fn set_subtree_visibility(&mut self, node: usize, visible: bool) -> Result<(), GraphError> {
-        let mut work: VecDeque<usize> = VecDeque::new();
+        // Depth-first walk. A node is `active` only while it is on the current path, so
+        // meeting an active node again is a genuine cycle; nodes that are merely reachable
+        // along several paths (diamonds, redundant transitive edges) are just `visited`.
         let mut visited = HashSet::new();
         let mut active = HashSet::new();
-        work.push_front(node);
-        while let Some(n) = work.pop_front() {
-            self.visibility[n] = visible;
-            visited.insert(n);
-            active.remove(&n);
-            for &depn in &self.adj_list[n] {
+        let mut stack: Vec<(usize, usize)> = vec![(node, 0)];
+        self.visibility[node] = visible;
+        visited.insert(node);
+        active.insert(node);
+        while let Some(&(n, next)) = stack.last() {
+            if let Some(&depn) = self.adj_list[n].get(next) {
+                if let Some(top) = stack.last_mut() {
+                    top.1 += 1;
+                }
                 if active.contains(&depn) {
                     let label = self.get_label_by_node(&depn)?;
                     return Err(GraphError::Cycle(depn, label.to_owned()));
                 }
-                if !visited.contains(&depn) {
-                    work.push_back(depn);
+                if visited.insert(depn) {
+                    self.visibility[depn] = visible;
                     active.insert(depn);
+                    stack.push((depn, 0));
                 }
+            } else {
+                active.remove(&n);
+                stack.pop();
             }
         }
 
